@@ -248,6 +248,9 @@ def construct_models_in_parallel(sample, chr_id, dump_filename, args, read_group
         gffutils_db = gffutils.FeatureDB(args.genedb)
     else:
         gffutils_db = None
+    # known isoforms already reported are tracked within one chromosome of one experiment only:
+    # the class-level set must not carry over to the next chromosome / experiment handled by this process
+    GraphBasedModelConstructor.detected_known_isoforms.clear()
     aggregator = ReadAssignmentAggregator(args, sample, read_groups, gffutils_db, chr_id)
 
     transcript_stat_counter = EnumStats()
